@@ -27,7 +27,7 @@ PARALLEL = 12
 def floors(tier):
     k = 1 if tier == "quick" else 4
     return {"surface_checks": 600 * k, "mixin_calls": 500 * k, "transport:rest": 70 * k, "transport:aio": 150 * k, "absent_confirmed": 250 * k,
-            "override_cases": 4 * k, "add_iam_cases": 5 * k, "add_iam_with_iam_in_yaml": 2 * k}
+            "override_cases": 4 * k, "add_iam_cases": 5 * k, "add_iam_with_iam_in_yaml": 2 * k, "absent_although_rules_present": 20 * k}
 
 
 def plan(seed, tier):
@@ -41,6 +41,13 @@ def plan(seed, tier):
                 if not sub and mode != "all":
                     continue
                 cases.append({"id": f"mix-{seed}-{i}", "seed": seed * 100003 + i, "mixins": sub, "mode": mode, "own_iam": None, "add_iam": False})
+                i += 1
+        # http rules present for mixin APIs that are not listed under `apis`: none of those RPCs may appear
+        for sub in subsets:
+            rest_ = [m for m in ("locations", "iam", "operations") if m not in sub]
+            if rest_:
+                cases.append({"id": f"mix-{seed}-{i}", "seed": seed * 100003 + i, "mixins": sub, "mode": "all", "own_iam": None, "add_iam": False,
+                              "unlisted": rest_ if (i + rep) % 2 else rest_[-1:]})
                 i += 1
         for own in (["SetIamPolicy"], ["GetIamPolicy", "TestIamPermissions"], ["SetIamPolicy", "GetIamPolicy", "TestIamPermissions"], ["TestIamPermissions"]):
             for sub in (["iam"], ["iam", "operations"], ["locations", "iam", "operations"]):
@@ -59,7 +66,7 @@ def build_api(case):
     prefix = rng.choice(["/v1", "/v1beta1", "/v2/x", "/api/v1"])
     tr = "grpc" if case["add_iam"] else rng.choice(["grpc+rest", "grpc+rest", "rest+grpc"])
     return apigen.mixin_api(rng, "m%d" % (case["seed"] % 100000), case["mixins"], case["mode"], own_iam=case["own_iam"],
-                            add_iam=case["add_iam"], transport=tr, prefix=prefix)
+                            add_iam=case["add_iam"], transport=tr, prefix=prefix, unlisted=case.get("unlisted") or ())
 
 
 def expected_methods(api):
@@ -154,7 +161,8 @@ def run_case(case):
         if "iam" in case["mixins"]:
             bump("add_iam_with_iam_in_yaml")
     tagbase = f"{'+'.join(case['mixins']) or 'none'}|{case['mode']}|own={bool(case['own_iam'])}|addiam={case['add_iam']}"
-    base_mech = {"mixins": case["mixins"], "mode": case["mode"], "own_iam": bool(case["own_iam"]), "add_iam": case["add_iam"]}
+    base_mech = {"mixins": case["mixins"], "mode": case["mode"], "own_iam": bool(case["own_iam"]), "add_iam": case["add_iam"],
+                 "rules_for_unlisted": sorted(api.info.get("unlisted_with_rules", []))}
     # surface
     for kind in ("sync", "async"):
         have = set(ev["surface"][kind])
@@ -174,6 +182,8 @@ def run_case(case):
                              "mech": {**base_mech, "client": kind, "mixin": MIXIN_METHODS[meth][0]}})
             elif meth not in exp:
                 bump("absent_confirmed")
+                if MIXIN_METHODS[meth][0] in api.info.get("unlisted_with_rules", []):
+                    bump("absent_although_rules_present")
     # own IAM rpcs reach the API's own service
     for oc, r in zip(own_calls, ev["own_results"]):
         want = f"/{api.info['pkg']}.Vault/{oc['rpc']}"
